@@ -12,7 +12,8 @@ def scen(r, i, th=None):
     """one scenario from a family; events are placed >= 25 ms away from the window edges they straddle"""
     th = th if th is not None else r.choice([0, 60, 80, 100])
     fam = r.choice(["single", "burst", "straddle", "rejected_stream", "accepted_stream", "urgent", "slow_handler", "multi_producer",
-                    "empties", "errors", "small_queue", "prio_mix"])
+                    "empties", "errors", "small_queue", "prio_mix", "runtime_throttle", "runtime_throttle"])
+    changes = []
     evs, t, nid = [], 20, 1
 
     def add(at, **kw):
@@ -80,9 +81,41 @@ def scen(r, i, th=None):
         add(t + th + 45, prio="high")
         add(t + th + 50, prio="normal")
         add(t + th + 55, prio="urgent")
+    elif fam == "runtime_throttle":
+        # the throttle is changed while the worker is idle or in the middle of a window
+        kind = r.choice(["raise-idle", "lower-mid-accepted", "lower-mid-rejected", "raise-mid", "raise-then-lower"])
+        if kind == "raise-idle":
+            th = 10
+            changes = [{"at_ms": 60, "ms": 300}]
+            add(110)
+            add(200)
+        elif kind == "lower-mid-accepted":
+            th = 400
+            changes = [{"at_ms": 150, "ms": 20}]
+            add(100)
+            add(210)
+            add(320)
+        elif kind == "lower-mid-rejected":
+            th = 400
+            changes = [{"at_ms": 150, "ms": 20}]
+            add(100)
+            add(210, verdict="reject")
+            add(330)
+        elif kind == "raise-mid":
+            th = 100
+            changes = [{"at_ms": 60, "ms": 350}]
+            add(20)
+            add(200, verdict=r.choice(["pass", "reject"]))
+        else:
+            th = 100
+            changes = [{"at_ms": 60, "ms": 500}, {"at_ms": 220, "ms": 30}]
+            add(20)
+            add(300)
+            add(420)
     last = max(e["at_ms"] for e in evs)
-    return {"id": i, "family": fam, "throttle_ms": th, "cap": cap, "events": evs, "handler": handler,
-            "tail_ms": max(sum(handler["durations_ms"]), 0) + th + 250 if last else 300}
+    thmax = max([th] + [c["ms"] for c in changes])
+    return {"id": i, "family": fam, "throttle_ms": th, "throttle_changes": changes, "cap": cap, "events": evs, "handler": handler,
+            "tail_ms": max(sum(handler["durations_ms"]), 0) + thmax + 250 if last else 300}
 
 
 def run_parallel(sub, cases, tag, procs=8):
@@ -141,15 +174,24 @@ def reconstruct(case, o):
     return seq, batches, filt, sent, errors
 
 
-def model_term(case, seq):
+def throttle_sets(o):
+    """[(T_us, value_us)] the instants at which the harness changed the throttle"""
+    return sorted((us(l["t"]), int(l["ms"]) * 1000) for l in o.get("log", []) if l["k"] == "throttle")
+
+
+def model_term(case, seq, sets=()):
+    """the run-time machine (Worker/ThrottleRt.v; equal to the constant-throttle one when there is no change)"""
     evs = {e["id"]: e for e in case["events"]}
     th = case["throttle_ms"] * 1000
     items = []
     for R, i in seq:
         e = evs[i]
         v = {"pass": 0, "reject": 1, "err": 2}[e.get("verdict", "pass")]
-        items.append(f"({R}, {th}, ({i}, {'true' if e.get('prio') == 'urgent' else 'false'}, {'true' if e.get('empty') else 'false'}, {v}))")
-    return f"(eval_collect {coq_list(items)} {th})%N"
+        items.append((R, 1, f"(false, {R}, ({i}, {'true' if e.get('prio') == 'urgent' else 'false'}, {'true' if e.get('empty') else 'false'}, {v}))"))
+    for T, v in sets:
+        items.append((T, 0, f"(true, {T}, ({v}, false, false, 0))"))
+    items.sort(key=lambda x: (x[0], x[1]))
+    return f"(eval_rt {th} {coq_list([x[2] for x in items])})%N"
 
 
 def parse_model(m):
@@ -163,9 +205,13 @@ def parse_model(m):
     return batches, [int(x) for x in errs.strip("[]").split(",") if x]
 
 
-def ambiguous(case, seq, mb):
-    th = case["throttle_ms"] * 1000
-    if th == 0:
+def ambiguous(case, seq, mb, sets=()):
+    ths = {case["throttle_ms"] * 1000} | {v for _, v in sets}
+    if ths == {0}:
         return False
-    edges = [b[0] + th for b in mb]
-    return any(abs(R - e) < MARGIN_US for R, _ in seq for e in edges)
+    edges = [b[0] + th for b in mb for th in ths if th]
+    if any(abs(R - e) < MARGIN_US for R, _ in seq for e in edges):
+        return True
+    # a change of the throttle too close to a loop turn (an event or a window edge)
+    turns = [R for R, _ in seq] + edges
+    return any(abs(T - t) < MARGIN_US for T, _ in sets for t in turns)
